@@ -294,3 +294,30 @@ pub fn random_pi_fault(rng: &mut Rng) -> ChanFault {
         _ => ChanFault::PiAllZero,
     }
 }
+
+
+/// A forgery solved for from public data only (Byzantine strategy 7, "re-balanced opening
+/// witnesses"): the two opening witnesses of a valid proof are shifted against each other,
+/// `W_zw += c [x - z]`, `W_z -= u c [x - z w]`, with z and u taken from the protocol's transcript
+/// of the *original* proof.  The shifted pair satisfies the batched pairing equation for the old
+/// u; a verifier whose u depends on the two witnesses (as the protocol demands) draws another u
+/// and rejects.  `x1` is [x]_1, the second SRS point.
+pub fn rebalance_openings(msg: &Msg, vf: &crate::rm_verify::RefVerifier, x1: &G1Affine, c: Sc) -> Option<Msg> {
+    use crate::rm_verify::{challenges, domain_for, RefProof};
+    if msg.proof.len() != PROOF_SIZE || msg.pi.len() != vf.pi_rows.len() {
+        return None;
+    }
+    let pf = RefProof::parse(&msg.proof)?;
+    let ch = challenges(vf, &pf, &msg.pi, crate::mirror::to_rm_version(msg.version));
+    let (_, omega) = domain_for(vf.n)?;
+    let g = G1Projective::from(vf.g);
+    let x = G1Projective::from(*x1);
+    let d2 = (x - g * ch.z) * c;
+    let d1 = (x - g * (ch.z * omega)) * (-(ch.u * c));
+    let w_z = G1Affine::from(G1Projective::from(pf.comms[9]) + d1);
+    let w_zw = G1Affine::from(G1Projective::from(pf.comms[10]) + d2);
+    let mut m = msg.clone();
+    m.proof[field_range(9)].copy_from_slice(&w_z.to_bytes());
+    m.proof[field_range(10)].copy_from_slice(&w_zw.to_bytes());
+    Some(m)
+}
